@@ -52,7 +52,7 @@ LEVEL_TEXT = ("Proved in Lean on the model (Model.Iter + Model.ParseNumber, all 
               "and 8-digit fast path included) as its separator-free counterpart; the unrestricted statement sep_free_same_full is now PROVED "
               "(sep_free_same_full_holds; before /repo 7e8a135 + 12a2453 it was refuted for the integer-only / fraction-only / exponent-only / "
               "no-flag classes - those kernel-evaluated witnesses are now the regression theorems sep_free_regression_*); "
-              (3) strip_preserves: for the class where "
+              "(3) strip_preserves: for the class where "
               "every component has I+L+T+C (no base prefix/suffix, STANDARD required digits) an input the complete parser accepts as a "
               "number is accepted as the same number after deleting all separators (refuted in general by the I+T+C class witness); (4) "
               "insert_preserves: for the same class, separators inserted anywhere except directly before a sign keep the input accepted "
